@@ -118,7 +118,7 @@ def declare(rep):
     rep.rule("C14.decisions", "both operands of every position-dependent comparison in the refiner, contact phases, box test and divider have equal weights", floor=10)
     rep.rule("C14.extrema-sentinels", "running minima start from a value no coordinate exceeds (+infinity / max()), running maxima from one no coordinate is below (-infinity / lowest()): numeric_limits::min() is the smallest POSITIVE double, a tissue with negative coordinates would never lower it", floor=6)
     rep.rule("C14.rounded-positions", "in the automatic polarizer every floor / ceil is taken of a translation-invariant quantity (a coordinate difference divided by the voxel size): rounding an absolute coordinate ties the result to the lattice through the origin of the coordinate system instead of the grid, which is anchored at the tissue (found D22)", floor=3)
-    rep.rule("C14.used-nodes-only", "the automatic polarizer reads the position of a node of a cell's node list only after testing is_used(): the slots freed by the mesh refiner are parked at (0,0,0), a point that does not move with the tissue (found D23)", floor=2)
+    rep.rule("C14.used-nodes-only", "the automatic polarizer reads the position of a node of a cell's node list only after testing is_used(): the slots freed by the mesh refiner are parked at (0,0,0), a point that does not move with the tissue (found D23)", floor=1)
     rep.rule("C14.grid", "grid quantisation numerators have weight 0; face boxes and global extrema have weight 1 on their own axis", floor=12)
 
 
